@@ -392,10 +392,21 @@ Proof.
   exists r'. split; [exact Hr|apply incl_refl].
 Qed.
 
+Lemma shr_transient_update h k r del key val : room_of h k = Some r -> shr h (fst (transient_update h k r del key val)).
+Proof.
+  intros Hr. unfold transient_update.
+  assert (Hn : forall d m, shr h (fst (transient_notify h k r d m))).
+  { intros d m. unfold transient_notify. eapply shr_trans; [|apply shr_fold_sessions; intros hh y; apply shr_send_session].
+    apply (shr_set_room_same h k r); [exact Hr|unfold room_set_transient; apply incl_refl]. }
+  destruct (del || N.eqb val 0).
+  - destruct (aget (r_transient r) key); [apply Hn|apply shr_refl].
+  - destruct (aget (r_transient r) key) as [v|]; [destruct (N.eqb v val); [apply shr_refl|apply Hn]|apply Hn].
+Qed.
+
 Lemma shr_room_request h k q : shr h (fst (room_request h k q)).
 Proof.
   unfold room_request. destruct (room_of h k) as [r|] eqn:Hroom; [|apply shr_refl].
-  destruct q as [|users rs|tag|l|l|ic|tag|ok]; [| | | | | | |apply shr_refl].
+  destruct q as [|users rs|tag|l|l|ic|tag|ok|del key val]; [| | | | | | |apply shr_refl|now apply shr_transient_update].
   - match goal with |- context [fold_sessions h ?int ?f] => set (internals := int); set (g := f) end.
     destruct (fold_sessions h internals g) as [h0 o0] eqn:H0.
     assert (R0 : shr h h0).
@@ -480,7 +491,7 @@ Proof.
   assert (Hpub : forall hh s m, shr h hh -> shr h (publish hh s m)).
   { intros hh s m R. eapply shr_trans; [exact R|apply shr_publish]. }
   pose proof (shr_refl h) as R0.
-  destruct q as [|users rs|tag|l|l|ic|tag|ok]; cbn [fst]; auto.
+  destruct q as [|users rs|tag|l|l|ic|tag|ok|del key val]; cbn [fst]; auto.
   - match goal with |- shr _ (fold_left ?f ?l ?h0) => apply (wf_fold_left_hub (fun hh => shr h hh) f l h0) end.
     + match goal with |- shr _ (fold_left ?f ?l ?h0) => apply (wf_fold_left_hub (fun hh => shr h hh) f l h0) end; auto.
     + intros hh y Hhh. destruct (aget (h_rs2 hh) (1000000 + y)); auto.
@@ -1073,10 +1084,20 @@ Proof. apply bij_ceq, ceq_set_incall. Qed.
 Lemma bij_leave_call h x : Bij h -> Bij (fst (leave_call h x)).
 Proof. apply bij_equiv, equiv_leave_call. Qed.
 
+Lemma bij_transient_update h k r del key val : Bij h -> Bij (fst (transient_update h k r del key val)).
+Proof.
+  intros B. unfold transient_update.
+  assert (Hn : forall d m, Bij (fst (transient_notify h k r d m))).
+  { intros d m. unfold transient_notify. apply wf_fold_sessions; [now apply bij_set_rooms|]. intros hh y. apply bij_send_session. }
+  destruct (del || N.eqb val 0).
+  - destruct (aget (r_transient r) key); [apply Hn|exact B].
+  - destruct (aget (r_transient r) key) as [v|]; [destruct (N.eqb v val); [exact B|apply Hn]|apply Hn].
+Qed.
+
 Lemma bij_room_request h k q : Bij h -> Bij (fst (room_request h k q)).
 Proof.
   intros B. unfold room_request. destruct (room_of h k) as [r|] eqn:Hroom; [|exact B].
-  destruct q as [|users rs|tag|l|l|ic|tag|ok]; [| | | | | | |exact B].
+  destruct q as [|users rs|tag|l|l|ic|tag|ok|del key val]; [| | | | | | |exact B|now apply bij_transient_update].
   - match goal with |- context [fold_sessions h ?int ?f] => set (internals := int); set (g := f) end.
     destruct (fold_sessions h internals g) as [h0 o0] eqn:H0.
     assert (B0 : Bij h0).
@@ -1152,7 +1173,7 @@ Qed.
 Lemma bij_do_api h b room q : Bij h -> Bij (fst (do_api h b room q)).
 Proof.
   intros B. unfold do_api.
-  destruct q as [|users rs|tag|l|l|ic|tag|ok]; cbn [fst]; try (now apply bij_publish).
+  destruct q as [|users rs|tag|l|l|ic|tag|ok|del key val]; cbn [fst]; try (now apply bij_publish).
   - apply wf_fold_left_hub.
     + apply wf_fold_left_hub; [exact B|]. intros hh y Hhh. now apply bij_publish.
     + intros hh y Hhh. destruct (aget (h_rs2 hh) (1000000 + y)); [now apply bij_publish|exact Hhh].
@@ -1561,6 +1582,32 @@ Proof. intros TIh. apply (ti_next h); [exact TIh|apply shr_leave_call|apply bij_
 Lemma ti_publish h subj m : TI h -> TI (publish h subj m).
 Proof. intros TIh. apply (ti_next h); [exact TIh|apply shr_publish|apply bij_publish, TIh]. Qed.
 
+(* the update of the transient data of room k: by a session of the room (OTransient) or by a room request *)
+Lemma transient_update_spec b oc h k r del key val : TI h -> room_of h k = Some r -> fst k = b ->
+  TI (fst (transient_update h k r del key val)) /\ Loc b oc h (transient_update h k r del key val).
+Proof.
+  intros TIh Hr Hk. unfold transient_update.
+  assert (Hl : forall x, In x (transient_listeners h r) -> bsid b h x).
+  { intros x Hx. unfold transient_listeners in Hx. apply filter_In in Hx as [Hx _]. rewrite <- Hk.
+    apply (t_member h (proj1 TIh) k r x Hr Hx). }
+  assert (G : forall d m, TI (fst (transient_notify h k r d m)) /\ Loc b oc h (transient_notify h k r d m)).
+  { intros d m. unfold transient_notify, room_set_transient.
+    set (h1 := set_rooms h (pset (h_rooms h) k (mkroom (r_members r) (r_incall r) (r_sessdata r) d (r_props r)))).
+    assert (F1 : Fr b oc h h1) by now apply fr_set_room.
+    assert (TI1 : TI h1).
+    { apply ti_set_rooms; [|exact TIh]. intros k' r' Hr'. rewrite pget_pset in Hr'. destruct (pair_eqb_spec k' k) as [->|Hne].
+      - injection Hr' as <-. exists r. split; [exact Hr|apply incl_refl].
+      - exists r'. split; [exact Hr'|apply incl_refl]. }
+    split; [apply wf_fold_sessions; [exact TI1|]; intros hh x; apply ti_send_session|]. eapply loc_after_fr; [exact F1|].
+    apply (loc_fold_sessions TI); [exact TI1| | |].
+    - intros x Hx. eapply bsid_fr; [exact F1|now apply Hl].
+    - intros hh x Th Hx. now apply loc_send_session.
+    - intros hh x Th. now apply ti_send_session. }
+  destruct (del || N.eqb val 0).
+  - destruct (aget (r_transient r) key); [apply G|split; [exact TIh|apply loc_ret]].
+  - destruct (aget (r_transient r) key) as [v0|]; [destruct (N.eqb v0 val); [split; [exact TIh|apply loc_ret]|]|]; apply G.
+Qed.
+
 Definition req_ok (b : N) (h : hub) (q : apireq) : Prop :=
   match q with
   | AInCall l => forall i ic pm, In (i, ic, pm) l -> match i with IdPub sid => bsid b h sid | _ => True end
@@ -1577,7 +1624,8 @@ Proof.
   assert (Hpub : forall hh m, match m with ARoomReq (AInCall _) | ASessionJoined _ _ => False | _ => True end ->
                    Fr b oc hh (publish hh (SubjRoom (fst k) (snd k)) m)).
   { intros hh m Hm. apply fr_publish. now apply pub_ok_plain. }
-  destruct q as [|users rs|tag|l|l|ic|tag|ok]; [| | | | | | |apply loc_ret].
+  destruct q as [|users rs|tag|l|l|ic|tag|ok|del key val];
+    [| | | | | | |apply loc_ret|apply (transient_update_spec b oc h k r del key val TIh Hroom Hk)].
   - (* delete *)
     match goal with |- context [fold_sessions h ?int ?f] => set (internals := int); set (g := f) end.
     assert (L0 : Loc b oc h (fold_sessions h internals g)).
@@ -1831,7 +1879,7 @@ Proof.
   assert (Hreq : forall q', match q' with AInCall _ => False | _ => True end ->
                    Loc b oc h (publish h (SubjBackendRoom b room) (ARoomReq q'), [])).
   { intros q' Hq'. apply loc_fr, fr_publish. split; cbn; [reflexivity|]. destruct q'; try exact I. contradiction. }
-  destruct q as [|users rs|tag|l|l|ic|tag|ok]; try (apply Hreq; exact I).
+  destruct q as [|users rs|tag|l|l|ic|tag|ok|del key val]; try (apply Hreq; exact I).
   - (* disinvite *)
     apply loc_fr. cbn [rs_local] in Hl. rewrite forallb_forall in Hl.
     set (P := fun hh => Fr b oc h hh /\ h_rs2 hh = h_rs2 h /\ h_sessions hh = h_sessions h).
@@ -2035,9 +2083,9 @@ Proof.
   { unfold h9. destruct (nmem sid (r_members r)); [apply fr_refl|]. apply fr_publish. now apply pub_ok_plain. }
   assert (TI9 : TI h9) by (unfold h9; destruct (nmem sid (r_members r)); [exact TI7|now apply ti_publish]).
   assert (L10 : Loc b oc h9 (if nmem sid (r_members r) then (h9, [])
-                              else match r_transient r with [] => (h9, []) | _ => send_session h9 sid (STransient 0 0) end) /\
+                              else match r_transient r with [] => (h9, []) | d => send_session h9 sid (STransient (TInit d)) end) /\
                 TI (fst (if nmem sid (r_members r) then (h9, [])
-                              else match r_transient r with [] => (h9, []) | _ => send_session h9 sid (STransient 0 0) end))).
+                              else match r_transient r with [] => (h9, []) | d => send_session h9 sid (STransient (TInit d)) end))).
   { destruct (nmem sid (r_members r)); [split; [apply loc_ret|exact TI9]|].
     destruct (r_transient r); [split; [apply loc_ret|exact TI9]|].
     split; [apply loc_send_session; [exact TI9|eapply bsid_fr; eauto]|now apply ti_send_session]. }
@@ -2462,57 +2510,14 @@ Proof. intros TIh. apply (ti_next h); [exact TIh|apply shr_revoke|apply bij_revo
 Lemma ti_fold_send h l m : TI h -> TI (fst (fold_sessions h l (fun hh x => send_session hh x m))).
 Proof. intros TIh. apply wf_fold_sessions; [exact TIh|]. intros hh x. apply ti_send_session. Qed.
 
-(* the transient-data request of a session in room k *)
-Definition transient_body (h : hub) (k : N * N) (r : room) (kindn key val : N) : hub * list out :=
-  let listeners := filter (fun m => match get_sess h m with Some t => negb (is_virtual t.(s_kind)) | None => false end) r.(r_members) in
-  if N.eqb kindn 0 then
-    match aget r.(r_transient) key with
-    | Some v => if N.eqb v val then (h, [])
-                else let h1 := set_rooms h (pset h.(h_rooms) k (mkroom r.(r_members) r.(r_incall) r.(r_sessdata) (aset r.(r_transient) key val) r.(r_props))) in
-                     fold_sessions h1 listeners (fun hh m => send_session hh m (STransient 1 key))
-    | None => let h1 := set_rooms h (pset h.(h_rooms) k (mkroom r.(r_members) r.(r_incall) r.(r_sessdata) (aset r.(r_transient) key val) r.(r_props))) in
-              fold_sessions h1 listeners (fun hh m => send_session hh m (STransient 1 key))
-    end
-  else
-    match aget r.(r_transient) key with
-    | Some _ => let h1 := set_rooms h (pset h.(h_rooms) k (mkroom r.(r_members) r.(r_incall) r.(r_sessdata) (adel r.(r_transient) key) r.(r_props))) in
-                fold_sessions h1 listeners (fun hh m => send_session hh m (STransient 2 key))
-    | None => (h, [])
-    end.
-
-Lemma transient_body_spec b oc h k r kindn key val : TI h -> room_of h k = Some r -> fst k = b ->
-  TI (fst (transient_body h k r kindn key val)) /\ Loc b oc h (transient_body h k r kindn key val).
-Proof.
-  intros TIh Hr Hk. unfold transient_body.
-  set (listeners := filter (fun m => match get_sess h m with Some t => negb (is_virtual (s_kind t)) | None => false end) (r_members r)).
-  assert (Hl : forall x, In x listeners -> bsid b h x).
-  { intros x Hx. apply filter_In in Hx as [Hx _]. rewrite <- Hk. apply (t_member h (proj1 TIh) k r x Hr Hx). }
-  assert (G : forall tr m, let h1 := set_rooms h (pset (h_rooms h) k (mkroom (r_members r) (r_incall r) (r_sessdata r) tr (r_props r))) in
-            TI (fst (fold_sessions h1 listeners (fun hh x => send_session hh x m))) /\
-            Loc b oc h (fold_sessions h1 listeners (fun hh x => send_session hh x m))).
-  { intros tr m h1.
-    assert (F1 : Fr b oc h h1) by now apply fr_set_room.
-    assert (TI1 : TI h1).
-    { apply ti_set_rooms; [|exact TIh]. intros k' r' Hr'. rewrite pget_pset in Hr'. destruct (pair_eqb_spec k' k) as [->|Hne].
-      - injection Hr' as <-. exists r. split; [exact Hr|apply incl_refl].
-      - exists r'. split; [exact Hr'|apply incl_refl]. }
-    split; [now apply ti_fold_send|]. eapply loc_after_fr; [exact F1|].
-    apply (loc_fold_sessions TI); [exact TI1| | |].
-    - intros x Hx. eapply bsid_fr; [exact F1|now apply Hl].
-    - intros hh x Th Hx. now apply loc_send_session.
-    - intros hh x Th. now apply ti_send_session. }
-  destruct (N.eqb kindn 0).
-  - destruct (aget (r_transient r) key) as [v0|]; [destruct (N.eqb v0 val); [split; [exact TIh|apply loc_ret]|]|]; apply G.
-  - destruct (aget (r_transient r) key); [apply G|split; [exact TIh|apply loc_ret]].
-Qed.
-
 Lemma step_transient h c kindn key val :
   step h (OTransient c kindn key val) =
   with_session h c (fun cn sid s =>
     match s.(s_room) with
     | None => (h, [ToConn c (SError E_not_in_room)])
-    | Some k => if negb (allowed_transient s) then (h, [ToConn c (SError E_not_allowed)])
-                else match room_of h k with None => (h, []) | Some r => transient_body h k r kindn key val end
+    | Some k => if 2 <=? kindn then (h, [ToConn c (SError E_ignored)])
+                else if negb (allowed_transient s) then (h, [ToConn c (SError E_not_allowed)])
+                else match room_of h k with None => (h, []) | Some r => transient_update h k r (N.eqb kindn 1) key val end
     end).
 Proof. reflexivity. Qed.
 
@@ -2594,8 +2599,9 @@ Proof.
   - cbn [step]. apply (ti_next h); [exact TIh|apply shr_do_mcudone|apply bij_do_mcudone, TIh].
   - rewrite step_transient. apply (with_session_spec (fun r => TI (fst r))); try exact TIh.
     intros cn sid s Hc Hs Hg. destruct (s_room s) as [k|] eqn:Hr; [|exact TIh].
+    destruct (2 <=? kindn); [exact TIh|].
     destruct (negb (allowed_transient s)); [exact TIh|]. destruct (room_of h k) as [r|] eqn:Hroom; [|exact TIh].
-    apply (transient_body_spec (fst k) None h k r kindn key val TIh Hroom eq_refl).
+    apply (transient_update_spec (fst k) None h k r (N.eqb kindn 1) key val TIh Hroom eq_refl).
   - cbn [step]. now apply ti_deliver_at.
   - (* aborted hello *)
     cbn [step]. destruct (aget (h_conns h) c) as [cn|]; [|exact TIh]. destruct (c_sess cn); [exact TIh|].
@@ -2695,8 +2701,9 @@ Proof.
   - rewrite step_transient. apply (with_session_spec (Loc b (Some c) h)); [apply loc_ret|apply loc_own|].
     intros cn sid s Hc Hs Hg. assert (Hb : s_backend s = b) by (apply (Hon cn sid s); auto).
     destruct (s_room s) as [k|] eqn:Hr; [|apply loc_own].
+    destruct (2 <=? kindn); [apply loc_own|].
     destruct (negb (allowed_transient s)); [apply loc_own|]. destruct (room_of h k) as [r|] eqn:Hroom; [|apply loc_ret].
-    apply (transient_body_spec b (Some c) h k r kindn key val TIh Hroom). rewrite <- Hb. apply (t_room h (proj1 TIh) sid s k Hg Hr).
+    apply (transient_update_spec b (Some c) h k r (N.eqb kindn 1) key val TIh Hroom). rewrite <- Hb. apply (t_room h (proj1 TIh) sid s k Hg Hr).
   - (* aborted hello *)
     cbn [step]. destruct (aget (h_conns h) c) as [cn|] eqn:Hc; [|apply loc_ret]. destruct (c_sess cn) eqn:Hs; [apply loc_ret|].
     destruct hl as [b' u rej|b' u t|b' t f d|i]; try apply loc_ret.
